@@ -1,3 +1,5 @@
+pub mod bdlgeom;
+pub mod bdlread;
 pub mod geom;
 pub mod links;
 pub mod mref;
